@@ -185,6 +185,18 @@ theorem inv2_step (cfg : Cfg) {st : St} (e : Ev) (hi : Inv st) (h : Inv2 st) : I
       · exact h
       · apply inv2_same h <;> (unfold doApplyBegin beginAt ignoreMsg ackTo; (repeat' split) <;> rfl)
     · exact h
+  case applyGetFail =>
+    split
+    · split
+      · exact h
+      · apply inv2_same h <;> (unfold doApplyGetFail ignoreMsg ackTo; (repeat' split) <;> rfl)
+    · exact h
+  case applyNoRows =>
+    split
+    · split
+      · exact h
+      · apply inv2_same h <;> (unfold doApplyNoRows; (repeat' split) <;> rfl)
+    · exact h
   case appendBad =>
     split
     · split
